@@ -168,7 +168,7 @@ func (b *Builder) FromBytes(bytes []byte) (*Config, error) {
 // or, if there is no such entry, by the reduction of its `default` entry; a switch with
 // neither is an error. Only that entry is visited, so the other entries of a switch never
 // influence the result. Every other map keeps its keys and has its values reduced, and so
-// has every list.
+// has every list. A map with a key that is not a string is never a switch.
 func reduceAny(in any, dimensions []*dimension) (any, error) {
 	switch v := in.(type) {
 	case map[string]any:
@@ -199,6 +199,17 @@ func reduceAny(in any, dimensions []*dimension) (any, error) {
 		return nil, ErrFailedParsing.Msg(
 			"broken dim key! %T dimensions identified around keys %s, but no `default` or `%s` value found.",
 			dim.defaultVal, keys.Slice(), selected)
+	case map[any]any:
+		// yaml decodes a map that has a key which is not a string (`80: http`, `true: on`) as
+		// map[any]any. Such a map cannot be a dimension switch: it keeps its keys and has its
+		// values reduced.
+		for k, el := range v {
+			r, err := reduceAny(el, dimensions)
+			if err != nil {
+				return nil, err
+			}
+			v[k] = r
+		}
 	case []any:
 		for i, el := range v {
 			r, err := reduceAny(el, dimensions)
